@@ -134,8 +134,10 @@ def instance_store(idx, cls, selfkey="self"):
     except AnalysisError:
         return {}
     it = Interp(idx, types={selfkey: cls}, unknown_calls="residual")
+    a = fi.node.args
+    args = {p.arg: Residual(p.arg) for p in (a.args[1:] + a.kwonlyargs)}
     try:
-        ps = it.run_all(fi, selfkey=selfkey)
+        ps = it.run_all(fi, args=args, selfkey=selfkey)
     except AnalysisError:
         return {}
     if len(ps) != 1:
